@@ -226,7 +226,7 @@ def run(chk):
     identity_operand_rule(chk, M, "C06")
     # ---- R06.10 the formulas themselves: ring normal form of every path of _add / _double
     from . import formulas
-    formulas.jacobian_group_law(chk, p, "C06", "R06.10")
+    formulas.deferred(chk, formulas.jacobian_group_law, p, "C06", "R06.10")
     # ---- R06.9 legacy Point.__add__: with equal x the choice between the identity and doubling is an
     # exact test modulo p on y1 + y2 (coordinates of legacy points are not always reduced: __mul__
     # builds Point(curve, x, -y)); raw integer equality of the points must not decide it
